@@ -221,6 +221,15 @@ pub struct Typed {
 set_desc!([] Typed, TypedClientAccounts, 11, [], { payer: Mut<Signer<SystemAccount>>, system_program: Program<System>,
     fresh: Init<Signer<Account<T2>>>, existing: Mut<Account<T1>>, ro: Account<T3> });
 
+/// the remaining account types of the shape family
+#[derive(AccountSet, Debug)]
+pub struct Typed2 {
+    pub a: Account<T4>,
+    pub b: Mut<Account<T5>>,
+    pub c: Option<Account<T6>>,
+}
+set_desc!([] Typed2, Typed2ClientAccounts, 12, [], { a: Account<T4>, b: Mut<Account<T5>>, c: Option<Account<T6>> });
+
 macro_rules! ixs {
     ($( $ix:ident => $acc:ty ),* $(,)?) => {
         #[derive(InstructionSet)]
@@ -259,6 +268,7 @@ ixs!(
     IxOptPair => OptPair,
     IxOdd => Odd,
     IxTyped => Typed,
+    IxTyped2 => Typed2,
 );
 
 // ------------------------------------------------------------------------------------------ account types
@@ -266,7 +276,7 @@ use star_frame::align1::Align1;
 use star_frame::bytemuck::{CheckedBitPattern, NoUninit};
 use star_frame::unsize::FromOwned;
 use std::collections::{BTreeMap, BTreeSet};
-use vh::Cur;
+use c17_support::Cur;
 
 /// fixed-size leaves: model descriptor `sfix`
 pub trait Fx17: CheckedBitPattern + NoUninit + Align1 + Copy + 'static {
